@@ -160,11 +160,9 @@ def step (s : St) (op : List String) (exts : List (List String)) : St × Option 
               -- run the model with the total functions the graphs extend to; a point outside the
               -- graph is reported, never defaulted
               let res := getSampleRate cap pre s.tabs.ext cfg tr (fun _ _ => r) (fun n => (intn n).getD 0)
-              match res.2 with
-              | .panic => (s, some "panic invalid%20argument%20to%20Intn")
-              | .ok rate keep =>
-                if (intn rate).isNone then (s, some s!"missing-ext intn {rate}") else
-                (s, some s!"rate={rate} keep={if keep then 1 else 0} reason={kind} k={enc res.1}")
+              let rate := res.2.rate
+              if (intn rate).isNone then (s, some s!"missing-ext intn {rate}") else
+              (s, some s!"rate={rate} keep={if res.2.keep then 1 else 0} reason={kind} k={enc res.1}")
         | _ => (s, some "missing-ext dynrate")
     | _ => (s, some "bad-op")
 
@@ -186,7 +184,7 @@ rendering, the span count.  It then checks, against the earlier observations of 
 * different value sets, all fields present, values free of `•` and `,`, below the cap
   ⇒ different keys                                        (separation)
 and on `sample`: rate ≥ 1, keep ⇔ the draw was 0, dynsampler asked with the returned key and the
-span count, no panic for a non-negative dynsampler answer. -/
+span count, no panic whatever dynsampler answered. -/
 
 structure Summary where
   sets : List (List String)          -- per non-root field (configured order, duplicates kept)
@@ -278,8 +276,8 @@ def mon (m : MSt) (op : List String) (exts : List (List String)) (obs : Option S
       | some ["=", rs] => rs.toInt?
       | _ => none
     if (obs.getD "").startsWith "panic" then
-      if isSample && (dynrate.map (fun r => decide (0 ≤ r))).getD true then
-        (m, [{ prop := "C11", sig := "C11:sampler-panics", what := s!"GetSampleRate panicked: {obs.getD ""}" }])
+      if isSample then
+        (m, [{ prop := "C11", sig := "C11:sampler-panics", what := s!"GetSampleRate panicked (dynsampler answered {dynrate}): {obs.getD ""}" }])
       else (m, [])
     else
     match (kv toks "k").bind dec with
